@@ -528,6 +528,28 @@ func TestC02(t *testing.T) {
 		bad[0] = 0x05
 		kC02.One(ev, c02Case{S: hex.EncodeToString(bad), Class: "C"})
 
+		// deterministic grid: every version byte x every standard payload length (and 19/21/33 bytes) x
+		// {mainnet cash prefix, mainnet SLP prefix, regtest prefix} x {with, without prefix}
+		gi := 0
+		for ver := 0; ver < 256; ver++ {
+			for _, n := range []int{19, 20, 21, 24, 28, 32, 33, 40, 48, 56, 64} {
+				payload := make([]byte, n)
+				for i := range payload {
+					payload[i] = byte(ver*7 + i*13 + n)
+				}
+				syms, _ := refConvertBits(append([]byte{byte(ver)}, payload...), 8, 5, true)
+				for _, prefix := range []string{"bitcoincash", "simpleledger", "bchreg"} {
+					gi++
+					if gi%nShards != shard {
+						continue
+					}
+					body := refCashEncodeSymbols(prefix, syms)
+					if !kC02.One(ev, c02Case{S: prefix + ":" + body, Class: "grid"}) || !kC02.One(ev, c02Case{S: body, Class: "grid"}) {
+						return
+					}
+				}
+			}
+		}
 		kC02.Run(t, ev, perShard(pick(10000, 6000000)))
 		ev.requireClasses("C02:class-A", "C02:class-B", "C02:class-C", "C02:class-D", "C02:class-E",
 			"C02:accepted-cash", "C02:accepted-slp", "C02:accepted-legacy", "C02:accepted-pubkey", "C02:outer-layer-passed")
